@@ -252,6 +252,18 @@ impl<K: Kit> Drv<K> {
         let checker = Arc::new(MonChecker::<K> { eval: WorldEval::new(&self.kit, &problem.world)?, log: self.log.clone() });
         Ok(Installed { problem: problem.clone(), pd, checker })
     }
+    /// A new problem definition that shares the space and the goal *objects* (same `Arc`s) of
+    /// an earlier one and differs in its start states (and world) - what a user does who asks
+    /// for another query towards the same goal.
+    pub fn install_sharing(&self, prev: &Installed<K>, problem: &Problem, starts: Option<Vec<Vec<f64>>>) -> Result<Installed<K>, String> {
+        let start_states = match starts {
+            None => std::iter::once(&problem.start).chain(problem.extra_starts.iter()).map(|f| self.kit.unflat(f)).collect(),
+            Some(l) => l.iter().map(|f| self.kit.unflat(f)).collect(),
+        };
+        let pd = Arc::new(ProblemDefinition { space: prev.pd.space.clone(), start_states, goal: prev.pd.goal.clone() });
+        let checker = Arc::new(MonChecker::<K> { eval: WorldEval::new(&self.kit, &problem.world)?, log: self.log.clone() });
+        Ok(Installed { problem: problem.clone(), pd, checker })
+    }
     /// Re-use an existing problem-definition object (same `Arc`, same space `Arc`) with a fresh
     /// validity checker evaluating `world_of` - what a user does who keeps the problem and
     /// changes the environment.
